@@ -111,8 +111,8 @@ CMP = {">=": "CGe", ">": "CGt"}
 
 def rx(s):
     """normalised statement text -> regex; @CMP@ marks a comparison parameter, @ERR@ an error name."""
-    r = re.escape(N(s.replace("@CMP@", " CMPPLACEHOLDER ").replace("@ERR@", " ERRPLACEHOLDER ")))
-    r = r.replace("CMPPLACEHOLDER", r"(>=|>)").replace("ERRPLACEHOLDER", r"([A-Za-z]+)")
+    r = re.escape(N(s.replace("@CMP@", " CMPPLACEHOLDER ").replace("@ERR@", " ERRPLACEHOLDER ").replace("@BS@", " BSPLACEHOLDER ")))
+    r = r.replace("CMPPLACEHOLDER", r"(>=|>)").replace("ERRPLACEHOLDER", r"([A-Za-z]+)").replace("BSPLACEHOLDER", r"(false|backside)")
     return re.compile("^" + r + "$")
 
 
@@ -142,7 +142,7 @@ STAGES = [
           TriRef& ref = triRef[tri]; ref.meshID = meshID; ref.originalID = originalID;
           ref.faceID = meshGL.faceID.empty() ? -1 : meshGL.faceID[tri]; ref.coplanarID = tri; }
         if (meshGL.runTransform.empty()) {
-          meshRelation_.meshIDtransform[meshID] = {originalID, la::identity, false, runHasN};
+          meshRelation_.meshIDtransform[meshID] = {originalID, la::identity, @BS@, runHasN};
         } else {
           const Precision* m = meshGL.runTransform.data() + 12 * i;
           meshRelation_.meshIDtransform[meshID] = {originalID,
@@ -213,6 +213,9 @@ def dedupe_keeps_tangents(repo):
     return bool(keep and keep.start() > pushes[-1])
 
 
+FLAGS = {}
+
+
 def translate(repo):
     src = strip_comments(open(os.path.join(repo, "src/impl.h")).read())
     stmts = statements(ctor_body(src))
@@ -247,6 +250,9 @@ def translate(repo):
                 items.append("ICancelGate %s" % g[0])
             elif name == "IPost":
                 items.append("IPost %s" % ("true" if dedupe_keeps_tangents(repo) else "false"))
+            elif name == "IRunLoop":
+                FLAGS["import_honours_backside_without_transform"] = (g[0] == "backside")
+                items.append(name)
             elif name == "ICreateHalfedges":
                 # must be followed by the IsManifold rung
                 nxt = stmts[k] if k < len(stmts) else ""
@@ -277,7 +283,10 @@ def translate(repo):
 def emit(items, path):
     txt = ("(* GENERATED by translate/c09_ladder.py from src/impl.h - do not edit *)\n"
            "From Coq Require Import List.\nFrom MV Require Import Codec.IngestDefs.\nImport ListNotations.\n\n"
-           "Definition table : list item :=\n  [ " + ";\n    ".join(items) + " ].\n")
+           "Definition table : list item :=\n  [ " + ";\n    ".join(items) + " ].\n\n"
+           "(* the run loop records the back-side bit of runFlags also when runTransform is absent *)\n"
+           "Definition import_honours_backside_without_transform : bool := %s.\n"
+           % ("true" if FLAGS.get("import_honours_backside_without_transform") else "false"))
     old = open(path).read() if os.path.exists(path) else None
     if old != txt:
         os.makedirs(os.path.dirname(path), exist_ok=True)
